@@ -8,7 +8,7 @@ import coqemit as E
 
 ID = "C16"
 PROPS = "Props/C16.v"
-IMPORTS = "From Coq Require Import String.\nFrom PV Require Import Lib.Common Lib.C16_Spec Model.C16_Store Gen.C16_Fields."
+IMPORTS = "From Coq Require Import String PrimFloat.\nFrom PV Require Import Lib.Common Lib.C16_Spec Model.C16_Store Model.C16_Heap Model.C16_Codec Gen.C16_Fields."
 SHARD = 40
 SERIAL = False
 LEVEL_TEXT = "TODO"
@@ -85,6 +85,8 @@ def veq(a, b):
     """observable equality of two JSON values: same None-ness, kind, dtype, shape, bit-identical data"""
     if a is None or b is None: return a is None and b is None
     if a["t"] != b["t"]:
+        # integer arrays of different width with the same shape and values are observably equal (== elementwise)
+        if a["t"] in INTS and b["t"] in INTS: return a["sh"] == b["sh"] and a["d"] == b["d"]
         # a python int and a numpy integer scalar of the same value are observably equal; same for floats
         ka, kb = _scalar(a), _scalar(b)
         return ka is not None and ka == kb
@@ -92,6 +94,7 @@ def veq(a, b):
         return set(a["v"]) == set(b["v"]) and all(veq(a["v"][k], b["v"][k]) for k in a["v"])
     ka = {k: v for k, v in a.items() if k != "sc"}; kb = {k: v for k, v in b.items() if k != "sc"}
     return ka == kb
+INTS = ("i8", "i32", "i64")
 def _scalar(v):
     if v["t"] == "int": return ("i", v["v"])
     if v["t"] in ("i8", "i32", "i64") and v["sh"] == []: return ("i", v["d"][0])
@@ -278,9 +281,156 @@ def emit_h5(case, out):
     g = case["group"]
     return "agree_h5 true spec_%s %s %s [] %s %s" % (key, Z(nt), "None" if g is None else "(Some %s)" % zstr(g), steps, outs)
 
+class _Heap:
+    def __init__(self): self.cells = []
+    def add(self, c):
+        self.cells.append(c); return "(HRef %d%%nat)" % (len(self.cells) - 1)
+    def hv(self, v, opaque=False):
+        if v is None: return "HNone"
+        t = v["t"]
+        if t == "dict":
+            items = []
+            for k, x in sorted(v["v"].items()):
+                if opaque and x is not None: items.append("(%s, %s)" % (zstr(k), self.add("(COpaque 1 %s)" % zl(_data(x)))))
+                else: items.append("(%s, %s)" % (zstr(k), self.hv(x)))
+            return self.add("(CDict %s)" % E.lst(items, str))
+        if t in ("int", "float", "s", "by") or (t in DT and v.get("sc")): return "(HImm %s)" % e_sval(v)
+        return self.add("(CArr %s)" % e_sval(v))
+    def render(self): return E.lst(self.cells, str)
+
+def emit_copy(case, out):
+    key = case["cls"]; H = _Heap()
+    names = attrs(key)
+    fields = []
+    for a in names:
+        fields.append("(%s, %s)" % (E.s(a), H.hv(out["before"][a])))
+    if key in ("SGMAP", "EGMAP"): fields.append("(%s, %s)" % (E.s("spline"), H.hv(out["before"]["spline"], opaque=True)))
+    if key == "GE":
+        g = out["gpmod_obs"]
+        gf = E.lst(attrs("ALGM"), lambda a: "(%s, %s)" % (E.s(a), H.hv(g[a])))
+        fields.append("(%s, %s)" % (E.s("gpmod"), H.add("(CObj %s %s)" % (E.s("ALGM"), gf))))
+        fields.append("(%s, %s)" % (E.s("rng"), H.add("(COpaque 2 [])")))
+    derived = {"PGM": {"ploidy"}}.get(key, set())          # computed from mat, not an attribute that is copied
+    obs_names = [a for a in out["copy"] if "." not in a and a not in derived]
+    copy_obs = E.lst(obs_names, lambda a: "(%s, %s)" % (E.s(a), E.opt(out["copy"][a], e_oval)))
+    def path(n):
+        if "." not in n: return (n, "", "")
+        a, k = n.split(".", 1)
+        return (a, "", k) if a == "gpmod" else (a, k, "")
+    def e_path(n):
+        a, k, kf = path(n); return "(%s, %s, %s)" % (E.s(a), zstr(k), E.s(kf))
+    shares = E.lst([n for n, v in out["shares"].items() if v is not None],
+                   lambda n: "(%s, %s, %s, %s)" % (E.s(path(n)[0]), zstr(path(n)[1]), E.s(path(n)[2]), E.b(out["shares"][n])))
+    changed = E.lst([n for n in out["before"] if not veq(out["before"][n], out["after"].get(n))], E.s)
+    watch = E.lst([n for n in out["before"] if n not in derived], lambda n: "(%s, %s)" % (E.s(n), e_path(n)))
+    deep = case["how"] in ("deepcopy", "m_deepcopy")
+    return "agree_copy all_specs spec_%s %s %s %s %s %s %s %s %s" % (key, E.b(deep), H.render(), E.lst(fields, str), copy_obs, shares, changed, watch,
+                                                                      E.lst(sorted(SHARED_ON_PURPOSE.get(key, [])), E.s))
+
+# ---- VCF
+def emit_vcf(case, out):
+    if case.get("ties"): return None                      # order among equal (chromosome, position) keys: predicate only
+    o = out["obj"]; n = len(case["samples"]); p = len(case["records"])
+    phased = case["cls"] == "PGM"
+    recs = E.lst(case["records"], lambda r: "(mkV %s %s %s %s)" % (Z(r["chrom"]), Z(r["pos"]), "None" if r["id"] == "." else "(Some %s)" % zstr(r["id"]),
+                                                                   E.lst(r["gt"], lambda g: "(%s, %s)" % (Z(g[0]), Z(g[1])))))
+    d = o["mat"]["d"]; sh = o["mat"]["sh"]
+    if phased: mat = [[[d[(ph * sh[1] + i) * sh[2] + j] for j in range(sh[2])] for i in range(sh[1])] for ph in range(sh[0])]
+    else: mat = [[[d[i * sh[1] + j] for j in range(sh[1])] for i in range(sh[0])]]
+    meta = "None"
+    if all(o[k] is not None for k in VRNT_META):
+        meta = "(Some (%s, %s, %s, %s))" % tuple(zl(o[k]["d"]) for k in VRNT_META)
+    elif any(o[k] is not None for k in VRNT_META): return "false"
+    for k in ("taxa", "vrnt_chrgrp", "vrnt_phypos", "vrnt_name"):
+        if o[k] is None: return "false"
+    pl = _scalar(o["ploidy"])
+    return "agree_vcf %s %s %s %s %s %s %s %s %s %s %s" % (E.b(phased), E.lst(case["samples"], zstr), recs, E.b(case["auto_group"]),
+        E.lst3(mat, Z), E.lst(o["taxa"]["d"], zstr), zl(o["vrnt_chrgrp"]["d"]), zl(o["vrnt_phypos"]["d"]), E.lst(o["vrnt_name"]["d"], zstr), meta,
+        Z(pl[1] if pl else -1))
+
+# ---- data frames
+def e_f(h): return E.fhex(float.fromhex(h))
+def e_cell(c):
+    if c is None: return "CNone"
+    if "i" in c: return "(CI %s)" % Z(c["i"])
+    if "f" in c: return "(CF %s)" % e_f(c["f"])
+    if "s" in c: return "(CS %s)" % zstr(c["s"])
+    if "b" in c: return "(CB %s)" % E.b(c["b"])
+    raise ValueError("cell %r" % (c,))
+def e_tbl(t):
+    return E.lst(list(zip(t["cols"], t["data"])), lambda cd: "(%s, %s)" % (e_cell(cd[0]), E.lst(cd[1], e_cell)))
+def rows2(v):
+    n, m = v["sh"]; d = v["d"]
+    return [[d[i * m + j] for j in range(m)] for i in range(n)]
+def rows3(v):
+    a, b, c = v["sh"]; d = v["d"]
+    return [[[d[(i * b + j) * c + k] for k in range(c)] for j in range(b)] for i in range(a)]
+def e_ostrs(v): return "None" if v is None else "(Some %s)" % E.lst(v["d"], zstr)
+def e_ozl(v): return "None" if v is None else "(Some %s)" % zl(v["d"])
+def _nan_free(v):
+    return v is None or v["t"] != "f64" or all(x == x for x in _fl(v))
+def _labels_as_cells(v):
+    """observed label array (str, or the repr of ints) -> list of cells"""
+    if v is None: return None
+    if v["t"] == "str": return [{"s": x} for x in v["d"]]
+    if v["t"] == "obj":
+        try: return [{"i": int(x)} for x in v["d"]]
+        except ValueError: return None
+    return None
+
+def emit_df(case, out):
+    key = case["cls"]; o = out["orig"]; b = out["back"]
+    df = out["df"]; dfr = out.get("df_read", out.get("df"))
+    if not all(_nan_free(v) for v in o.values() if isinstance(v, dict)): return None
+    if key in ("SGMAP", "EGMAP"):
+        ext = key == "EGMAP"
+        def e_g(v):
+            return "(mkG %s %s %s %s %s %s)" % (zl(v["vrnt_chrgrp"]["d"]), zl(v["vrnt_phypos"]["d"]), e_ozl(v.get("vrnt_stop")) if ext else "None",
+                                                E.lst(v["vrnt_genpos"]["d"], e_f), e_ostrs(v.get("vrnt_name")) if ext else "None", e_ostrs(v.get("vrnt_fncode")) if ext else "None")
+        u = "UcM" if case["opts"].get("units", "cM") in ("cM", "centiMorgans") else "UM"
+        if "exc" in b: back = "None"
+        else:
+            meta = "None"
+            if all(b[k] is not None for k in VRNT_META): meta = "(Some (%s, %s, %s, %s))" % tuple(zl(b[k]["d"]) for k in VRNT_META)
+            sp = "None" if b.get("spline") is None else "(Some %s)" % E.lst(sorted(b["spline"]["v"].items(), key=lambda kv: int(kv[0])),
+                                                                             lambda kv: "(%s, %s)" % (Z(int(kv[0])), E.lst(kv[1]["d"], e_f)))
+            back = "(Some (%s, %s, %s))" % (e_g(b), meta, sp)
+        return "agree_gmap %s %s %s %s %s %s %s %s" % (E.b(ext), u, E.b(case["obj"].get("_auto_group", True)), E.b(case["obj"].get("_spline", True)),
+                                                      e_g(o), e_tbl(df), e_tbl(dfr), back)
+    if key == "CM":
+        def e_m(v): return "(mkCM %s %s %s)" % (E.lst2(rows2(v["mat"]), e_f), e_ostrs(v["taxa"]), e_ozl(v["taxa_grp"]))
+        if "exc" not in b and b["taxa"] is not None and b["taxa"]["t"] != "str": return None      # integer labels parsed from a CSV: predicate only
+        grp_col = out["opts"]["to"]["taxa_grp_col"] is not None
+        return "agree_cm %s %s %s %s %s" % (E.b(grp_col), e_m(o), e_tbl(df), e_tbl(dfr), "None" if "exc" in b else "(Some %s)" % e_m(b))
+    if key == "VM":
+        def e_m(v): return "(mkVM %s %s %s %s)" % (E.lst3(rows3(v["mat"]), e_f), e_ostrs(v["taxa"]), e_ozl(v["taxa_grp"]), e_ostrs(v["trait"]))
+        grp = out["opts"]["to"]["female_grp_col"] is not None
+        return "agree_vm %s %s %s %s %s" % (E.b(grp), e_m(o), e_tbl(df), e_tbl(dfr), "None" if "exc" in b else "(Some %s)" % e_m(b))
+    if key == "BV":
+        def e_m(v): return "(mkBV %s %s %s %s %s %s)" % (E.lst2(rows2(v["mat"]), e_f), E.lst(v["location"]["d"], e_f), E.lst(v["scale"]["d"], e_f),
+                                                         e_ostrs(v["taxa"]), e_ozl(v["taxa_grp"]), e_ostrs(v["trait"]))
+        if "exc" in b: return "agree_bv %s %s %s %s None []" % (E.b(case["opts"].get("unscale", False)), e_m(o), e_tbl(df), e_tbl(dfr))
+        bt = _labels_as_cells(b["trait"])
+        if bt is None or not all(_nan_free(v) for v in b.values() if isinstance(v, dict)): return None
+        bb = dict(b); bb["trait"] = None
+        return "agree_bv %s %s %s %s (Some %s) %s" % (E.b(case["opts"].get("unscale", False)), e_m(o), e_tbl(df), e_tbl(dfr), e_m(bb), E.lst(bt, e_cell))
+    if key in ("ALGM", "ADLGM"):
+        blocks = ["beta", "u_misc", "u_a"] + (["u_d"] if key == "ADLGM" else [])
+        t = o["beta"]["sh"][1]
+        if "exc" in b: back = "None"; bt = []
+        else:
+            bt = _labels_as_cells(b["trait"])
+            if bt is None: return None
+            back = "(Some %s)" % E.lst(blocks, lambda k: E.lst2(rows2(b[k]), e_f))
+        return "agree_gmod %s %d%%nat %s %s %s %s %s" % (e_ostrs(o["trait"]), t, E.lst(blocks, lambda k: E.lst2(rows2(o[k]), e_f)),
+                                                      E.lst(blocks, lambda k: e_tbl(df[k])), E.lst(blocks, lambda k: e_tbl(dfr[k])), back, E.lst(bt, e_cell))
+    return None
+
+_EMIT = {"h5": emit_h5, "copy": emit_copy, "vcf": emit_vcf, "df": emit_df}
 def emit_case(case, out):
     if "exc" in out: return "false"
-    return {"h5": emit_h5}[case["kind"]](case, out)
+    f = _EMIT.get(case["kind"])
+    return f(case, out) if f else None
 
 # ------------------------------------------------------------------------------------------------ translator hook
 def translate(repo, gen_dir):
@@ -290,3 +440,665 @@ def translate(repo, gen_dir):
     recs, path = c16_fields.generate(classes, gen_dir)
     return [{"table": "Gen/C16_Fields.v", "classes": len(recs),
              "written_keys": sum(len(r["written"]) for r in recs), "copied_attrs": sum(len(r["cp_ctor"]) + len(r["cp_post"]) for r in recs)}]
+
+# ------------------------------------------------------------------------------------------------ generators
+LABELS = ["a", "B7", "ä", "ß", "日本", "😀x", "na/ïve", "", " sp ace", "Ω", "line-1", "Zz", "é", "x_y", "0", "t1"]
+FLOATS = [0.0, -0.0, 1.0, -1.0, 0.5, 0.25, 2.0, 3.75, 0.1, 0.2, 0.30000000000000004, 1 / 3, 1e-300, 1e300, 123456.789, -7.25, 5e-324]
+def g_f64(rng, shape, nonneg=False, special=True, tame=False):
+    n = 1
+    for s in shape: n *= s
+    d = []
+    for _ in range(n):
+        k = rng.random()
+        if k < 0.5: x = rng.randint(-512, 512) / 64
+        elif k < 0.9: x = rng.choice(FLOATS[:-5] if tame else FLOATS)
+        elif k < 0.95 and special: x = rng.choice([float("inf"), float("-inf"), float("nan")])
+        else: x = rng.uniform(-10, 10)
+        if nonneg:
+            x = abs(x) if x == x and abs(x) != float("inf") else 1.5
+        d.append(fhex(x))
+    return {"t": "f64", "sh": list(shape), "d": d}
+def g_int(rng, shape, lo, hi, t="i64"):
+    n = 1
+    for s in shape: n *= s
+    return {"t": t, "sh": list(shape), "d": [rng.randint(lo, hi) for _ in range(n)]}
+def g_str(rng, n):
+    return {"t": "str", "d": [rng.choice(LABELS) if rng.random() < 0.8 else rng.choice(LABELS) + rng.choice(LABELS) for _ in range(n)]}
+def g_ustr(rng, n):
+    """n distinct labels"""
+    pool = LABELS[:]; rng.shuffle(pool)
+    out = pool[:n]
+    while len(out) < n: out.append("L%d" % len(out))
+    return {"t": "str", "d": out}
+def opt(rng, mode, f):
+    """mode: 'all' | 'none' | 'mix'"""
+    if mode == "all" or (mode == "mix" and rng.random() < 0.5): return f()
+    return None
+def g_meta(rng, names):
+    k = rng.randint(1, 3)
+    return {m: g_int(rng, [k], 0, 9, rng.choice(["i64", "i64", "i32"])) for m in names}
+
+def g_taxa_part(rng, o, n, mode, meta=True):
+    o["taxa"] = opt(rng, mode, lambda: g_str(rng, n))
+    o["taxa_grp"] = opt(rng, mode, lambda: g_int(rng, [n], 0, 3, rng.choice(["i64", "i64", "i32", "i8"])))
+    if meta:
+        k = rng.random()
+        if o["taxa_grp"] is not None and k < 0.45: o.setdefault("_group", []).append("taxa")
+        elif k < 0.6 or mode == "all": o.update(g_meta(rng, TAXA_META))
+def g_vrnt_part(rng, o, p, mode):
+    o["vrnt_chrgrp"] = opt(rng, mode, lambda: g_int(rng, [p], 1, 3))
+    o["vrnt_phypos"] = opt(rng, mode, lambda: g_int(rng, [p], 1, 10 ** 9))
+    o["vrnt_name"] = opt(rng, mode, lambda: g_str(rng, p))
+    o["vrnt_genpos"] = opt(rng, mode, lambda: g_f64(rng, [p]))
+    o["vrnt_xoprob"] = opt(rng, mode, lambda: g_f64(rng, [p]))
+    o["vrnt_hapgrp"] = opt(rng, mode, lambda: g_int(rng, [p], 0, 5))
+    o["vrnt_hapalt"] = opt(rng, mode, lambda: {"t": "str", "d": [rng.choice("ACGT") for _ in range(p)]})
+    o["vrnt_hapref"] = opt(rng, mode, lambda: {"t": "str", "d": [rng.choice(["A", "C", "G", "T", "AT", "-"]) for _ in range(p)]})
+    o["vrnt_mask"] = opt(rng, mode, lambda: g_int(rng, [p], 0, 1, "b"))
+    k = rng.random()
+    if o["vrnt_chrgrp"] is not None and o["vrnt_phypos"] is not None and k < 0.45: o.setdefault("_group", []).append("vrnt")
+    elif k < 0.6 or mode == "all": o.update(g_meta(rng, VRNT_META))
+
+HKEYS = ["a", "lr", "é", "kind", "n_iter", "λ"]
+def g_hyper(rng, mode):
+    if mode == "none" or (mode == "mix" and rng.random() < 0.3): return None
+    d = {}
+    for k in rng.sample(HKEYS, rng.randint(0, 3)):
+        r = rng.random()
+        if r < 0.35: d[k] = {"t": "float", "v": fhex(rng.choice(FLOATS))}
+        elif r < 0.6: d[k] = {"t": "int", "v": rng.randint(-5, 1000)}
+        elif r < 0.8: d[k] = g_f64(rng, [rng.randint(1, 3)])
+        elif r < 0.93: d[k] = {"t": "s", "v": rng.choice(["ridge", "bä", "x"])}
+        else: d[k] = None
+    return {"t": "dict", "v": d}
+
+def gen_obj(rng, key, mode=None):
+    mode = mode or rng.choice(["all", "none", "mix", "mix", "mix"])
+    n, p, t = rng.randint(1, 4), rng.randint(1, 5), rng.randint(1, 3)
+    o = {}
+    if key == "DM":
+        sh = rng.choice([[n], [n, p], [2, n, p]])
+        o["mat"] = rng.choice([lambda: g_f64(rng, sh), lambda: g_int(rng, sh, -100, 100, rng.choice(["i8", "i32", "i64"])), lambda: g_int(rng, sh, 0, 1, "b")])()
+    elif key == "TM":
+        o["mat"] = g_f64(rng, [n, p]); g_taxa_part(rng, o, n, mode)
+    elif key == "VrM":
+        o["mat"] = g_f64(rng, [p, n]) if rng.random() < 0.5 else g_int(rng, [p, n], 0, 2, "i8"); g_vrnt_part(rng, o, p, mode)
+    elif key == "GM":
+        pl = rng.choice([1, 2, 2, 4])
+        o["mat"] = g_int(rng, [n, p], 0, pl, "i8"); g_taxa_part(rng, o, n, mode); g_vrnt_part(rng, o, p, mode)
+        o["ploidy"] = {"t": "int", "v": pl}
+    elif key == "PGM":
+        m = rng.choice([1, 2, 2, 3])
+        o["mat"] = g_int(rng, [m, n, p], 0, 1, "i8"); g_taxa_part(rng, o, n, mode); g_vrnt_part(rng, o, p, mode)
+    elif key == "BV":
+        o["mat"] = g_f64(rng, [n, t]); o["location"] = g_f64(rng, [t], special=False); o["scale"] = g_f64(rng, [t], nonneg=True)
+        g_taxa_part(rng, o, n, mode); o["trait"] = opt(rng, mode, lambda: g_str(rng, t))
+    elif key == "CM":
+        o["mat"] = g_f64(rng, [n, n]); g_taxa_part(rng, o, n, mode)
+        for f in ["taxa_grp"] + TAXA_META:                      # the coancestry setters insist on int64
+            if o.get(f) is not None: o[f]["t"] = "i64"
+    elif key in ("STT", "VM"):
+        o["mat"] = g_f64(rng, [n, n, t]); g_taxa_part(rng, o, n, mode); o["trait"] = opt(rng, mode, lambda: g_str(rng, t))
+    elif key in ("ALGM", "ADLGM"):
+        q = rng.randint(1, 2)
+        o["beta"] = g_f64(rng, [q, t]); o["u_misc"] = opt(rng, mode, lambda: g_f64(rng, [rng.randint(0, 2), t]))
+        o["u_a"] = opt(rng, "all" if mode == "all" else "mix", lambda: g_f64(rng, [p, t]))
+        if key == "ADLGM": o["u_d"] = opt(rng, "all" if mode == "all" else "mix", lambda: g_f64(rng, [p, t]))
+        o["trait"] = opt(rng, mode, lambda: g_str(rng, t))
+        o["model_name"] = opt(rng, mode, lambda: {"t": "s", "v": rng.choice(["rrBLUP", "mödel ü", "", "G/BLUP"])})
+        o["hyperparams"] = g_hyper(rng, mode)
+    elif key == "GE":
+        ne = rng.randint(1, 3)
+        o["nenv"] = {"t": "int", "v": ne}
+        o["nrep"] = g_int(rng, [ne], 1, 4, rng.choice(["i64", "i64", "i32", "i8"])) if rng.random() < 0.7 else {"t": "int", "v": rng.randint(1, 3)}
+        for f in ("var_env", "var_rep", "var_err"):
+            o[f] = opt(rng, mode, lambda: g_f64(rng, [t], nonneg=True))
+        o["_ntrait"] = t
+    return o
+
+GROUPS = [None, "g", "g/", "a/b", "a/b/", "/abs/x", "données/ü", "日本/x/", "a//b", "deep/er/and/deeper"]
+def gen_h5(rng, key=None, ntr=None):
+    key = key or rng.choice(H5_CLASSES)
+    k = rng.random()
+    nsteps = 1 if k < 0.3 else (2 if k < 0.7 else 3)
+    modes = [None] * nsteps
+    if nsteps >= 2 and rng.random() < 0.6:          # rich -> poor, the pattern named in the property
+        modes = ["all"] + [rng.choice(["none", "mix"]) for _ in range(nsteps - 1)]
+    objs = [gen_obj(rng, key, m) for m in modes]
+    if key == "GE":
+        for o in objs: o["_ntrait"] = objs[0]["_ntrait"]; 
+        for o in objs:
+            for f in ("var_env", "var_rep", "var_err"):
+                if o.get(f) is not None and o[f]["sh"] != [o["_ntrait"]]: o[f] = g_f64(rng, [o["_ntrait"]], nonneg=True)
+    ow = [True] + [rng.random() < 0.85 for _ in range(nsteps - 1)]
+    if rng.random() < 0.1: ow[0] = False
+    return {"kind": "h5", "cls": key, "group": rng.choice(GROUPS), "handle": rng.random() < 0.4, "objs": objs, "overwrite": ow}
+
+def gen_cases(rng, tier):
+    cases = []
+    N = 20 if tier == "quick" else 200
+    for key in H5_CLASSES:
+        for _ in range(N): cases.append(gen_h5(rng, key))
+    M = 8 if tier == "quick" else 80
+    for key in CLS:
+        for _ in range(M): cases.append(gen_copy(rng, key))
+    for i in range(40 if tier == "quick" else 400): cases.append(gen_vcf(rng, ties=(i % 8 == 7)))
+    for key in ["BV", "CM", "VM", "SGMAP", "EGMAP", "ALGM", "ADLGM"]:
+        for i in range(15 if tier == "quick" else 150): cases.append(gen_df(rng, key))
+    return cases
+
+# ------------------------------------------------------------------------------------------------ predicate
+def _flat_keys(o):
+    """dataset names a faithful to_hdf5 of the observed object must leave below the group (nested one level)"""
+    ks = set()
+    for k, v in o.items():
+        if v is None: continue
+        if v["t"] == "dict":
+            for kk, vv in v["v"].items():
+                if vv is not None: ks.add(k + "/" + kk)
+        else: ks.add(k)
+    return ks
+
+def _norm_group(g):
+    return "/".join(c for c in (g or "").split("/") if c)
+
+def pred_h5(case, out):
+    bad = []
+    last = None
+    g = _norm_group(case["group"])
+    for i, ow in enumerate(case["overwrite"]):
+        w = out["writes"][i]
+        if w is not None:
+            if ow or last is None:
+                bad.append("step %d: to_hdf5 raised %s: %s" % (i, w["exc"], w["msg"])); continue
+            # refusing to overwrite: the location must still hold the previous object
+        else:
+            last = i
+        if last is None: continue
+        r = out["reads"][i]
+        if "exc" in r:
+            bad.append("step %d: from_hdf5 raised %s: %s" % (i, r["exc"], r["msg"])); continue
+        d = oeq(out["orig"][last], r)
+        if d: bad.append("step %d: object read back differs from the last object written (step %d) in %s" % (i, last, ",".join(d)))
+        dump = out["dumps"][i] or {}
+        pre = g + "/" if g else ""
+        have = {k[len(pre):] for k, v in dump.items() if v != "G" and k.startswith(pre)}
+        want = _flat_keys({k: v for k, v in out["orig"][last].items() if k in [a for a, _ in WRITTEN.get(case["cls"], [])] or True})
+        want = {k for k in want if k.split("/")[0] in WRITTEN_KEYS[case["cls"]]}
+        extra = have - want
+        if extra: bad.append("step %d: stale datasets left in the file: %s" % (i, ",".join(sorted(extra))))
+        miss = want - have
+        if miss: bad.append("step %d: datasets missing from the file: %s" % (i, ",".join(sorted(miss))))
+    return bad
+
+# keys every class is expected to persist: all constructor fields and all metadata (the property: "all data, labels,
+# group metadata and parameters"); written down here independently of the source and of the Coq tables
+WRITTEN_KEYS = {k: set(CLS[k][2] + CLS[k][3]) | ({"ploidy"} if k == "PGM" else set()) for k in CLS}
+WRITTEN = {}
+
+def pred(case, out):
+    if "exc" in out: return ["harness/implementation raised %s: %s" % (out["exc"], out.get("msg"))]
+    bad = {"h5": pred_h5, "copy": pred_copy, "vcf": pred_vcf, "df": pred_df}[case["kind"]](case, out)
+    seen = []
+    for b in bad:
+        if b not in seen: seen.append(b)
+    return seen[:8]
+
+def _hyper_lossy(o):
+    h = o.get("hyperparams")
+    return h is not None and any(v is None or v["t"] == "s" for v in h["v"].values())
+def _hyper_keys(o):
+    h = o.get("hyperparams")
+    return set() if h is None else {k for k, v in h["v"].items() if v is not None}
+
+def classify(case, out, clauses):
+    if case["kind"] == "h5" and case["cls"] in ("ALGM", "ADLGM") and "exc" not in out:
+        only_h = all(("differs" in c and c.rstrip().endswith(" in hyperparams")) or "stale datasets" in c and all(x.startswith("hyperparams/") for x in c.split(": ")[-1].split(",")) for c in clauses)
+        if clauses and only_h:
+            stale = False
+            for i in range(1, len(case["objs"])):
+                if any(_hyper_keys(case["objs"][j]) - _hyper_keys(case["objs"][i]) for j in range(i)): stale = True
+            if stale: return "C16-h5-stale-hyperparams"
+            if any(_hyper_lossy(o) for o in case["objs"]): return "C16-h5-hyperparams-lossy"
+    if case["kind"] == "df" and clauses:
+        tags = set()
+        for c in clauses:
+            if not c.startswith("["): return None
+            tags.add(c[1:c.index("]")])
+        o = case["obj"]; key = case["cls"]
+        # each tag is accepted only on the input pattern that is known to trigger it; one finding id per case
+        if "absent-labels" in tags and not any(o.get(f) is None for f in LABEL_FIELDS[key]): return None
+        if "bv-location-scale" in tags and key != "BV": return None
+        if "vmat-sorted" in tags:
+            srt = lambda v: v is None or (v["d"] == sorted(v["d"]) and len(set(v["d"])) == len(v["d"]))
+            if key != "VM" or (srt(o.get("taxa")) and srt(o.get("trait"))): return None
+        if "gmap-cM-rounding" in tags:
+            if key not in ("SGMAP", "EGMAP") or case["opts"].get("units") not in ("cM", "centiMorgans"): return None
+            if all(0.01 * (100.0 * x) == x for x in _fl(o["vrnt_genpos"])): return None
+        if "csv-float-parse" in tags:
+            if case["via"] != "csv" or not any(_long_float(x) for v in o.values() if isinstance(v, dict) and v.get("t") == "f64" for x in _fl(v)): return None
+        for t, fid in (("csv-float-parse", "C16-csv-float-parse"), ("bv-location-scale", "C16-bv-pandas-location-scale"), ("vmat-sorted", "C16-vmat-pandas-sorted"),
+                       ("gmap-cM-rounding", "C16-gmap-cM-rounding"), ("absent-labels", "C16-df-absent-labels")):
+            if t in tags: return fid
+    return None
+
+def nontrivial(case, out):
+    if case["kind"] == "h5":
+        o = out.get("orig", [])
+        return bool(o) and any(v is None for v in o[-1].values()) and any(v is not None for k, v in o[-1].items() if k not in ("mat", "beta", "nenv")) or len(o) >= 2
+    return True
+
+def describe(case, out):
+    d = {"kind": case["kind"], "cls": case.get("cls")}
+    if case["kind"] == "h5":
+        d["writes"] = len(case["objs"]); d["group"] = "root" if case["group"] is None else ("non-ascii" if any(ord(c) > 127 for c in case["group"]) else "nested" if "/" in case["group"].strip("/") else "plain")
+        d["all_overwrite"] = all(case["overwrite"])
+    return d
+
+# ------------------------------------------------------------------------------------------------ copies
+def _spline_obs(o):
+    sp = getattr(o, "spline", None)
+    if sp is None: return None
+    return {"t": "dict", "v": {str(int(k)): ob(numpy.asarray(v.y, dtype=float)) for k, v in sp.items()}}
+
+def observe_c(key, o):
+    d = observe(key, o)
+    if key in ("SGMAP", "EGMAP"): d["spline"] = _spline_obs(o)
+    if key == "GE":
+        for a in ("beta", "u_a"): d["gpmod." + a] = ob(getattr(o.gpmod, a))
+    return d
+
+def _shares(a, b):
+    """do two attribute values share mutable state?  None for immutable values"""
+    if a is None or b is None: return None
+    if isinstance(a, numpy.ndarray) and isinstance(b, numpy.ndarray): return bool(numpy.shares_memory(a, b))
+    if isinstance(a, dict) and isinstance(b, dict): return a is b
+    if isinstance(a, (int, float, str, bytes, bool, numpy.generic)): return None
+    return a is b
+
+def _mutate_arr(x):
+    if x.size == 0: return
+    if x.dtype == object: x[(0,) * x.ndim] = "MUT"
+    elif x.dtype == bool: x[(0,) * x.ndim] = not x[(0,) * x.ndim]
+    elif x.dtype.kind == "f": x[(0,) * x.ndim] = 12345.5
+    else: x[(0,) * x.ndim] = (int(x[(0,) * x.ndim]) + 1) % 100
+
+def run_copy(case):
+    key = case["cls"]
+    o = build(key, case["obj"])
+    before = observe_c(key, o)
+    how = case["how"]
+    if how == "copy": c = _copy.copy(o)
+    elif how == "deepcopy": c = _copy.deepcopy(o)
+    elif how == "m_copy": c = o.copy()
+    else: c = o.deepcopy() if key not in ("GM", "PGM", "BV", "DM", "TM", "VrM", "CM", "STT", "VM") else o.deepcopy({})
+    out = {"before": before, "copy": observe_c(key, c), "same": c is o, "type_same": type(c) is type(o), "shares": {}}
+    if key == "GE": out["gpmod_obs"] = observe("ALGM", o.gpmod)
+    names = attrs(key) + (["spline"] if key in ("SGMAP", "EGMAP") else []) + (["gpmod", "rng"] if key == "GE" else [])
+    for a in names:
+        x, y = getattr(o, a), getattr(c, a)
+        out["shares"][a] = _shares(x, y)
+        if isinstance(x, dict) and isinstance(y, dict):
+            for k in x:
+                if k in y:
+                    xv, yv = x[k], y[k]
+                    if hasattr(xv, "y") and hasattr(yv, "y"):              # interp1d
+                        out["shares"]["%s.%s" % (a, int(k))] = (xv is yv) or bool(numpy.shares_memory(xv.y, yv.y))
+                    else:
+                        s = _shares(xv, yv)
+                        if s is not None: out["shares"]["%s.%s" % (a, k)] = s
+        if a == "gpmod":
+            for b in ("beta", "u_a"): out["shares"]["gpmod." + b] = bool(numpy.shares_memory(getattr(x, b), getattr(y, b)))
+    # mutate everything reachable from the copy
+    for a in names:
+        y = getattr(c, a)
+        if isinstance(y, numpy.ndarray): _mutate_arr(y)
+        elif isinstance(y, dict):
+            for k, v in list(y.items()):
+                if isinstance(v, numpy.ndarray): _mutate_arr(v)
+                elif hasattr(v, "y"): _mutate_arr(v.y)
+            y["__new__"] = 1
+        elif a == "gpmod":
+            _mutate_arr(y.beta); _mutate_arr(y.u_a)
+    out["after"] = observe_c(key, o)
+    return out
+
+_RUN = {"h5": run_h5, "copy": run_copy}
+def run_impl(case):
+    with warnings.catch_warnings():
+        warnings.simplefilter("ignore")
+        return _RUN[case["kind"]](case)
+
+def gen_map_obj(rng, key, spline=None):
+    nchr = rng.randint(1, 3); per = [rng.randint(2, 3) for _ in range(nchr)]
+    chrs = []
+    for i, k in enumerate(per): chrs += [i + 1] * k
+    p = len(chrs)
+    pos = []
+    for i, k in enumerate(per): pos += sorted(rng.sample(range(1, 1000), k))
+    order = list(range(p)); rng.shuffle(order)
+    gp = []
+    for i, k in enumerate(per):
+        x = 0.0
+        for _ in range(k): x += rng.randint(1, 64) / 256 if rng.random() < 0.7 else rng.uniform(0.001, 0.3); gp.append(x)
+    o = {"vrnt_chrgrp": {"t": "i64", "sh": [p], "d": [chrs[i] for i in order]},
+         "vrnt_phypos": {"t": "i64", "sh": [p], "d": [pos[i] for i in order]},
+         "vrnt_genpos": {"t": "f64", "sh": [p], "d": [fhex(gp[i]) for i in order]},
+         "_auto_group": rng.random() < 0.8, "_spline": (rng.random() < 0.7) if spline is None else spline}
+    if key == "EGMAP":
+        o["vrnt_stop"] = {"t": "i64", "sh": [p], "d": [pos[i] + rng.randint(0, 5) for i in order]}
+        o["vrnt_name"] = g_str(rng, p) if rng.random() < 0.6 else None
+        o["vrnt_fncode"] = g_str(rng, p) if rng.random() < 0.4 else None
+    return o
+
+def gen_copy(rng, key=None):
+    key = key or rng.choice(list(CLS))
+    o = gen_map_obj(rng, key) if key in ("SGMAP", "EGMAP") else gen_obj(rng, key)
+    return {"kind": "copy", "cls": key, "obj": o, "how": rng.choice(["copy", "deepcopy", "m_copy", "m_deepcopy"])}
+
+SHARED_ON_PURPOSE = {"GE": {"rng"}}
+def pred_copy(case, out):
+    bad = []
+    if out["same"]: bad.append("the copy is the source object itself")
+    if not out["type_same"]: bad.append("the copy has another class")
+    d = oeq(out["before"], out["copy"])
+    if d: bad.append("%s differs from its source in %s" % (case["how"], ",".join(d)))
+    if case["how"] in ("deepcopy", "m_deepcopy"):
+        sh = [a for a, v in out["shares"].items() if v and a not in SHARED_ON_PURPOSE.get(case["cls"], ())]
+        if sh: bad.append("deep copy shares mutable state with its source: %s" % ",".join(sorted(sh)))
+        d = oeq(out["before"], out["after"])
+        if d: bad.append("mutating the deep copy changed the source in %s" % ",".join(d))
+    else:
+        # a shallow copy may share the contents of containers, but not the top-level arrays/containers themselves
+        sh = [a for a, v in out["shares"].items() if v and "." not in a and a not in SHARED_ON_PURPOSE.get(case["cls"], ())]
+        if sh: bad.append("shallow copy aliases top-level attributes of its source: %s" % ",".join(sorted(sh)))
+    return bad
+
+# ------------------------------------------------------------------------------------------------ VCF import
+def vcf_text(case):
+    lines = ["##fileformat=VCFv4.2"]
+    for c in sorted({r["chrom"] for r in case["records"]}): lines.append("##contig=<ID=%d>" % c)
+    lines.append('##FORMAT=<ID=GT,Number=1,Type=String,Description="Genotype">')
+    lines.append("\t".join(["#CHROM", "POS", "ID", "REF", "ALT", "QUAL", "FILTER", "INFO", "FORMAT"] + case["samples"]))
+    for r in case["records"]:
+        gts = ["%d|%d" % (a, b) for a, b in r["gt"]]
+        lines.append("\t".join([str(r["chrom"]), str(r["pos"]), r["id"], r["ref"], r["alt"], ".", "PASS", ".", "GT"] + gts))
+    return "\n".join(lines) + "\n"
+
+def run_vcf(case):
+    key = case["cls"]; cls = klass(key)
+    fn = _tmp(case, ".vcf")
+    try:
+        with open(fn, "w", encoding="utf-8") as f: f.write(vcf_text(case))
+        g = cls.from_vcf(fn, auto_group_vrnt=case["auto_group"])
+        return {"obj": observe(key, g), "contiguous": bool(g.mat.flags["C_CONTIGUOUS"])}
+    finally:
+        if os.path.exists(fn): os.remove(fn)
+_RUN["vcf"] = run_vcf
+
+def gen_vcf(rng, ties=False):
+    n = rng.randint(1, 4); p = rng.randint(1, 6)
+    samples = g_ustr(rng, n)["d"]
+    samples = [s.replace("/", "_").replace(" ", "_") or "S%d" % i for i, s in enumerate(samples)]
+    coords = set()
+    recs = []
+    for j in range(p):
+        while True:
+            c, pos = rng.randint(1, 3), rng.randint(1, 30)
+            if ties and recs and rng.random() < 0.4: c, pos = recs[-1]["chrom"], recs[-1]["pos"]; break
+            if (c, pos) not in coords: break
+        coords.add((c, pos))
+        recs.append({"chrom": c, "pos": pos, "id": rng.choice(["rs%d" % rng.randint(1, 999), "m_%d" % j, ".", "snp-é%d" % j, "日本%d" % j]),
+                     "ref": rng.choice("ACGT"), "alt": rng.choice("ACGT"), "gt": [[rng.randint(0, 1), rng.randint(0, 1)] for _ in range(n)]})
+    if rng.random() < 0.5: recs.sort(key=lambda r: (r["chrom"], r["pos"]))
+    return {"kind": "vcf", "cls": rng.choice(["PGM", "GM"]), "samples": samples, "records": recs, "auto_group": rng.random() < 0.6, "ties": ties}
+
+def pred_vcf(case, out):
+    bad = []
+    o = out["obj"]; recs = case["records"]; n = len(case["samples"]); p = len(recs)
+    def arr(k): return None if o[k] is None else o[k]
+    if o["taxa"] is None or o["taxa"].get("d") != case["samples"]: bad.append("sample names not reproduced")
+    phased = case["cls"] == "PGM"
+    want_sh = [2, n, p] if phased else [n, p]
+    if o["mat"]["sh"] != want_sh or o["mat"]["t"] != "i8": bad.append("genotype array has dtype/shape %s%s, expected int8%s" % (o["mat"]["t"], o["mat"]["sh"], want_sh)); return bad
+    d = o["mat"]["d"]
+    def col(j):
+        if phased: return tuple(d[ph * n * p + i * p + j] for ph in range(2) for i in range(n))
+        return tuple(d[i * p + j] for i in range(n))
+    def wantcol(r):
+        if phased: return tuple(r["gt"][i][ph] for ph in range(2) for i in range(n))
+        return tuple(r["gt"][i][0] + r["gt"][i][1] for i in range(n))
+    for k in ("vrnt_chrgrp", "vrnt_phypos", "vrnt_name"):
+        if o[k] is None or len(o[k]["d"]) != p: bad.append("%s missing or of wrong length" % k); return bad
+    got = [(o["vrnt_chrgrp"]["d"][j], o["vrnt_phypos"]["d"][j], o["vrnt_name"]["d"][j], col(j)) for j in range(p)]
+    want = [(r["chrom"], r["pos"], "None" if r["id"] == "." else r["id"], wantcol(r)) for r in recs]
+    if case["auto_group"]:
+        if sorted(got) != sorted(want): bad.append("variants (coordinate, identifier, calls) not reproduced as a multiset")
+        keys = [(g[0], g[1]) for g in got]
+        if keys != sorted(keys): bad.append("variants not sorted by (chromosome, position) after grouping")
+        if not case.get("ties") and got != sorted(want, key=lambda t: (t[0], t[1])): bad.append("variant order differs from the sorted file order")
+        chroms = sorted({r["chrom"] for r in recs})
+        cnt = [sum(1 for r in recs if r["chrom"] == c) for c in chroms]
+        st = [sum(cnt[:i]) for i in range(len(chroms))]
+        exp = {"vrnt_chrgrp_name": chroms, "vrnt_chrgrp_stix": st, "vrnt_chrgrp_spix": [a + b for a, b in zip(st, cnt)], "vrnt_chrgrp_len": cnt}
+        for k, v in exp.items():
+            if o[k] is None or o[k]["d"] != v: bad.append("%s wrong after import" % k)
+    else:
+        if got != want: bad.append("variant coordinates / identifiers / calls differ from the file (positionally)")
+        for k in VRNT_META:
+            if o[k] is not None: bad.append("%s set although grouping was not requested" % k)
+    if o.get("ploidy") is not None and _scalar(o["ploidy"]) != ("i", 2): bad.append("ploidy != 2 for diploid calls")
+    for k in ("taxa_grp", "vrnt_genpos", "vrnt_xoprob", "vrnt_hapgrp", "vrnt_mask"):
+        if o[k] is not None: bad.append("%s invented by the import" % k)
+    return bad
+
+# ------------------------------------------------------------------------------------------------ data frames / CSV
+def cell(x):
+    """a data-frame cell / column label -> JSON"""
+    import pandas
+    if x is None or x is pandas.NA: return None
+    if isinstance(x, (bool, numpy.bool_)): return {"b": bool(x)}
+    if isinstance(x, (int, numpy.integer)): return {"i": int(x)}
+    if isinstance(x, (float, numpy.floating)): return {"f": fhex(x)}
+    if isinstance(x, str): return {"s": x}
+    return {"o": repr(x)[:80]}
+
+def table(df):
+    return {"cols": [cell(c) for c in df.columns], "dtypes": [str(t) for t in df.dtypes],
+            "data": [[cell(x) for x in df.iloc[:, j].tolist()] for j in range(df.shape[1])]}
+
+def df_options(key, o, case):
+    """matching (to, from) keyword options for an object, chosen by the presence of its optional labels"""
+    opts = case.get("opts", {})
+    if key == "BV":
+        tc = "taxa" if o.taxa is not None else None
+        gc = "taxa_grp" if o.taxa_grp is not None else None
+        to = dict(taxa_col=tc, taxa_grp_col=gc, trait_cols="all" if o.trait is not None else None, unscale=bool(opts.get("unscale", False)))
+        fr = dict(taxa_col=tc, taxa_grp_col=gc, trait_cols="infer", location=o.location, scale=o.scale)
+        return to, fr
+    if key == "CM":
+        gc = "taxa_grp" if (o.taxa_grp is not None or opts.get("grp_col_anyway")) else None
+        return dict(taxa_col="taxa", taxa_grp_col=gc, taxa="all"), dict(taxa_col="taxa", taxa_grp_col=gc, taxa="all")
+    if key == "VM":
+        gc = o.taxa_grp is not None
+        kw = dict(female_col="female", female_grp_col="female_grp" if gc else None, male_col="male", male_grp_col="male_grp" if gc else None,
+                  trait_col="trait", variance_col="variance")
+        return kw, dict(kw)
+    if key in ("SGMAP", "EGMAP"):
+        u = opts.get("units", "cM")
+        ag = bool(case["obj"].get("_auto_group", True)); sp = bool(case["obj"].get("_spline", True))
+        to = dict(vrnt_genpos_units=u); fr = dict(vrnt_genpos_units=u, auto_group=ag, auto_build_spline=sp)
+        if key == "EGMAP":
+            fr["vrnt_name_col"] = "name" if o.vrnt_name is not None else None
+            fr["vrnt_fncode_col"] = "fncode" if o.vrnt_fncode is not None else None
+        return to, fr
+    if key in ("ALGM", "ADLGM"):
+        return dict(trait_cols="trait"), dict(trait_cols="infer", model_name=o.model_name, hyperparams=o.hyperparams)
+    raise ValueError(key)
+
+def run_df(case):
+    import pandas
+    key = case["cls"]; cls = klass(key)
+    o = build(key, case["obj"])
+    out = {"orig": observe_c(key, o) if key in ("SGMAP", "EGMAP") else observe(key, o)}
+    to, fr = df_options(key, o, case)
+    out["opts"] = {"to": {k: (v if not isinstance(v, numpy.ndarray) else "<array>") for k, v in to.items()},
+                   "from": {k: (v if not isinstance(v, (numpy.ndarray, dict)) else "<obj>") for k, v in fr.items()}}
+    multi = key in ("ALGM", "ADLGM")
+    files = []
+    try:
+        if case["via"] == "pandas":
+            if multi:
+                dd = o.to_pandas_dict(**to); out["df"] = {k: table(v) for k, v in dd.items()}
+                back = cls.from_pandas_dict(dd, **fr)
+                out["df_after"] = {k: table(v) for k, v in dd.items()}
+            else:
+                df = o.to_pandas(**to); out["df"] = table(df)
+                back = cls.from_pandas(df, **fr)
+                out["df_after"] = table(df)
+        else:
+            if multi:
+                names = {k: _tmp(case, "_%s.csv" % k) for k in (["beta", "u_misc", "u_a"] + (["u_d"] if key == "ADLGM" else []))}
+                files = list(names.values())
+                out["df"] = {k: table(v) for k, v in o.to_pandas_dict(**to).items()}
+                o.to_csv_dict(names, **to)
+                out["df_read"] = {k: table(pandas.read_csv(v)) for k, v in names.items()}
+                back = cls.from_csv_dict(names, **fr)
+            else:
+                fn = _tmp(case, ".csv"); files = [fn]
+                out["df"] = table(o.to_pandas(**to))
+                o.to_csv(fn, **to)
+                out["df_read"] = table(pandas.read_csv(fn))
+                back = cls.from_csv(fn, **fr)
+        out["back"] = observe_c(key, back) if key in ("SGMAP", "EGMAP") else observe(key, back)
+    except Exception as e:
+        out["back"] = _exc(e)
+        import traceback; out["back"]["tb"] = traceback.format_exc()[-800:]
+    finally:
+        for f in files:
+            if os.path.exists(f): os.remove(f)
+    return out
+_RUN["df"] = run_df
+
+CSV_LABELS = ["a", "B7", "ä", "ß", "日本", "😀x", "Ω", "line-1", "Zz", "é", "x_y", "t1", "with,comma", 'quo"te', "sp ace", "na/ïve"]
+def g_labels(rng, n, csv, distinct=True, sort=None):
+    pool = (CSV_LABELS if csv else [l for l in LABELS if l != ""] + ["with,comma"])[:]
+    rng.shuffle(pool)
+    out = pool[:n]
+    if sort is True: out.sort()
+    return {"t": "str", "d": out}
+
+def gen_df(rng, key=None, via=None):
+    key = key or rng.choice(["BV", "CM", "VM", "SGMAP", "EGMAP", "ALGM", "ADLGM"])
+    via = via or rng.choice(["pandas", "pandas", "csv"])
+    csv = via == "csv"
+    n, t = rng.randint(1, 4), rng.randint(1, 3)
+    grid = lambda sh, **k: {"t": "f64", "sh": list(sh), "d": [fhex(rng.randint(-2048, 2048) / 256) for _ in range(int(numpy.prod(sh)))]}
+    fl = (lambda sh, **k: grid(sh)) if ((csv and rng.random() < 0.8) or rng.random() < 0.5) else (lambda sh, **k: g_f64(rng, sh, special=False, tame=True, **k))
+    opts = {}
+    if key in ("SGMAP", "EGMAP"):
+        o = gen_map_obj(rng, key)
+        if key == "EGMAP":
+            p = o["vrnt_chrgrp"]["sh"][0]
+            for f in ("vrnt_name", "vrnt_fncode"):
+                if o[f] is not None: o[f] = {"t": "str", "d": [rng.choice(CSV_LABELS) for _ in range(p)]}
+        opts["units"] = rng.choice(["cM", "cM", "M", "centiMorgans", "Morgans"])
+        if csv or rng.random() < 0.5:
+            o["vrnt_genpos"]["d"] = [fhex(round(float.fromhex(x) * 256) / 256 + 1 / 256) for x in o["vrnt_genpos"]["d"]]
+        return {"kind": "df", "cls": key, "via": via, "obj": o, "opts": opts}
+    mode = rng.choice(["all", "all", "mix", "none"])
+    o = {}
+    if key == "BV":
+        std = rng.random() < 0.5
+        o["mat"] = fl([n, t])
+        if std and n >= 2:      # a matrix that is exactly standardised: columns of +-1 with equal counts need even n; else (-1,0,1)-like patterns are not unit variance
+            if n % 2 == 0:
+                cols = []
+                for j in range(t):
+                    c = [1.0] * (n // 2) + [-1.0] * (n // 2); rng.shuffle(c); cols.append(c)
+                o["mat"] = {"t": "f64", "sh": [n, t], "d": [fhex(cols[j][i]) for i in range(n) for j in range(t)]}
+        o["location"] = grid([t]); o["scale"] = {"t": "f64", "sh": [t], "d": [fhex(rng.choice([0.5, 1.0, 2.0, 4.0, 0.25])) for _ in range(t)]}
+        o["taxa"] = opt(rng, mode, lambda: g_labels(rng, n, csv)); o["taxa_grp"] = opt(rng, mode, lambda: g_int(rng, [n], 0, 3))
+        o["trait"] = opt(rng, mode, lambda: g_labels(rng, t, csv))
+        opts["unscale"] = rng.random() < 0.6
+    elif key == "CM":
+        o["mat"] = fl([n, n]); o["taxa"] = opt(rng, mode, lambda: g_labels(rng, n, csv)); o["taxa_grp"] = opt(rng, mode, lambda: g_int(rng, [n], 0, 3))
+        opts["grp_col_anyway"] = rng.random() < 0.3
+    elif key == "VM":
+        srt = rng.random() < 0.6
+        o["mat"] = fl([n, n, t]); o["taxa"] = opt(rng, mode, lambda: g_labels(rng, n, csv, sort=srt)); o["taxa_grp"] = opt(rng, mode, lambda: g_int(rng, [n], 0, 3))
+        o["trait"] = opt(rng, mode, lambda: g_labels(rng, t, csv, sort=srt))
+    else:
+        q = rng.randint(1, 2); p = rng.randint(1, 4)
+        o["beta"] = fl([q, t]); o["u_misc"] = opt(rng, mode, lambda: fl([rng.randint(0, 2), t])); o["u_a"] = fl([p, t])
+        if key == "ADLGM": o["u_d"] = fl([p, t])
+        o["trait"] = opt(rng, mode, lambda: g_labels(rng, t, csv))
+        o["model_name"] = opt(rng, mode, lambda: {"t": "s", "v": rng.choice(["rrBLUP", "mödel"])})
+        o["hyperparams"] = opt(rng, mode, lambda: {"t": "dict", "v": {"a": {"t": "float", "v": fhex(0.5)}}})
+    return {"kind": "df", "cls": key, "via": via, "obj": o, "opts": opts}
+
+def _fl(v): return [float.fromhex(x) for x in v["d"]]
+def _close(a, b, rel=1e-9):
+    return len(a) == len(b) and all((x == y) or (x != x and y != y) or abs(x - y) <= rel * (1 + abs(y)) for x, y in zip(a, b))
+def _ulps(a, b, k=4):
+    return len(a) == len(b) and all(x == y or abs(x - y) <= k * 2.0 ** -52 * max(abs(x), abs(y)) for x, y in zip(a, b))
+
+def _long_float(x):
+    """needs more than 15 significant digits to print"""
+    return x == x and abs(x) != float("inf") and float("%.15g" % x) != x
+LABEL_FIELDS = {"BV": ["taxa", "trait"], "CM": ["taxa"], "VM": ["taxa", "trait"], "ALGM": ["trait"], "ADLGM": ["trait"], "SGMAP": [], "EGMAP": []}
+
+def pred_df(case, out):
+    key = case["cls"]; o = out["orig"]; b = out["back"]
+    if "exc" in b: return ["reading back raised %s: %s" % (b["exc"], b["msg"])]
+    bad = []
+    diff = oeq(o, b)
+    absent = [f for f in LABEL_FIELDS[key] if o[f] is None]
+    # (1) labels that were present come back exactly; absent ones may only come back as None
+    for f in LABEL_FIELDS[key] + (["taxa_grp"] if "taxa_grp" in o and key != "VM" else []):
+        if f in diff and f not in absent and not (key == "VM"):
+            bad.append("label array %s not reproduced" % f)
+    synth = [f for f in absent if f in diff]
+    if synth: bad.append("[absent-labels] absent %s read back as synthesised labels" % ",".join(synth))
+    rest = [f for f in diff if f not in synth]
+    if key == "BV":
+        n, t = o["mat"]["sh"]
+        un = lambda v: [s * m + l for (m, s, l) in zip(_fl(v["mat"]), _fl(v["scale"]) * n, _fl(v["location"]) * n)]
+        want = un(o) if case["opts"].get("unscale") else _fl(o["mat"])
+        if b["mat"]["sh"] != [n, t] or not _close(un(b), want, 1e-9): bad.append("breeding values (unscaled through the returned location/scale) differ from the values written")
+        if any(f in rest for f in ("mat", "location", "scale")):
+            bad.append("[bv-location-scale] location/scale/mat not reproduced: from_pandas ignores location and scale and re-standardises (%s)" % ",".join(f for f in rest if f in ("mat", "location", "scale")))
+        rest = [f for f in rest if f not in ("mat", "location", "scale")]
+    elif key == "VM":
+        def entries(v, taxa, trait):
+            n = v["mat"]["sh"][0]; t = v["mat"]["sh"][2]; d = v["mat"]["d"]
+            return {(taxa[i], taxa[j], trait[k]): d[(i * n + j) * t + k] for i in range(n) for j in range(n) for k in range(t)}
+        n = o["mat"]["sh"][0]; t = o["mat"]["sh"][2]
+        zt = math.ceil(math.log10(n)) + 1; zr = math.ceil(math.log10(t)) + 1
+        ot = o["taxa"]["d"] if o["taxa"] is not None else ["Taxon" + str(i).zfill(zt) for i in range(n)]
+        otr = o["trait"]["d"] if o["trait"] is not None else ["Trait" + str(i).zfill(zr) for i in range(t)]
+        if b["taxa"] is None or b["trait"] is None or b["mat"]["sh"] != [n, n, t]:
+            bad.append("variance matrix read back with another shape or without labels")
+        else:
+            if entries(o, ot, otr) != entries(b, b["taxa"]["d"], b["trait"]["d"]): bad.append("variance entries differ as a labelled set (female, male, trait) -> value")
+            if (o["taxa_grp"] is None) != (b["taxa_grp"] is None): bad.append("taxa_grp presence changed")
+            elif o["taxa_grp"] is not None and dict(zip(ot, o["taxa_grp"]["d"])) != dict(zip(b["taxa"]["d"], b["taxa_grp"]["d"])): bad.append("taxon -> group assignment differs")
+            pos = [f for f in rest if f in ("mat", "taxa", "taxa_grp", "trait")]
+            if pos: bad.append("[vmat-sorted] positional layout not reproduced (labels re-sorted by the reader): %s" % ",".join(pos))
+        rest = [f for f in rest if f not in ("mat", "taxa", "taxa_grp", "trait")]
+    elif key in ("SGMAP", "EGMAP"):
+        gp = [f for f in rest if f in ("vrnt_genpos", "spline")]
+        if gp:
+            ok = b["vrnt_genpos"] is not None and _ulps(_fl(b["vrnt_genpos"]), _fl(o["vrnt_genpos"]))
+            if ok and b.get("spline") is not None and o.get("spline") is not None:
+                ok = set(b["spline"]["v"]) == set(o["spline"]["v"]) and all(_ulps(_fl(b["spline"]["v"][k]), _fl(o["spline"]["v"][k])) for k in o["spline"]["v"])
+            if not ok: bad.append("genetic positions differ by more than rounding")
+            else: bad.append("[gmap-cM-rounding] genetic positions not bit-identical after the cM <-> M conversion 0.01*(100*x)")
+        rest = [f for f in rest if f not in ("vrnt_genpos", "spline")]
+    if case["via"] == "csv":
+        fl = [f for f in rest if o[f] is not None and b[f] is not None and o[f]["t"] == "f64" and b[f]["t"] == "f64"
+              and o[f]["sh"] == b[f]["sh"] and _ulps(_fl(o[f]), _fl(b[f]), 2)]
+        if fl: bad.append("[csv-float-parse] %s differ in the last bit after to_csv/from_csv (pandas' default float parser is not round-trip exact)" % ",".join(fl))
+        rest = [f for f in rest if f not in fl]
+    if rest: bad.append("fields not reproduced: %s" % ",".join(rest))
+    return bad
